@@ -1,12 +1,15 @@
 #!/usr/bin/env python3
-"""tools/seedtable.py <results.jsonl>: fold tools/seedeval.py RESULT lines (last one per seed+check wins)
+"""tools/seedtable.py <results.jsonl> [more.jsonl ...]: fold tools/seedeval.py RESULT lines (last one per seed+check wins)
 into seeded/<name>/meta.json ("detected_by", "what_was_run") and seeded/RESULTS.md."""
 import json, re, sys
 from pathlib import Path
 
 ROOT = Path(__file__).resolve().parent.parent
 res = {}
-for line in Path(sys.argv[1]).read_text().splitlines():
+lines = []
+for f_ in sys.argv[1:]:
+    lines += Path(f_).read_text().splitlines()
+for line in lines:
     line = line.strip()
     if not line:
         continue
